@@ -10,7 +10,7 @@ mkdir -p "$D/repo" && git -C /repo archive HEAD | tar -x -C "$D/repo"
 cp /repo/Cargo.lock "$D/repo/" 2>/dev/null || true
 mkdir -p "$D/verif" && (cd /verif && git ls-files -z | xargs -0 tar -c) | tar -x -C "$D/verif"
 sed -i "s#path = \"/repo\"#path = \"$D/repo\"#" "$D/verif/harness/Cargo.toml"
-sed -i "s#target-dir = \"/verif/work/target\"#target-dir = \"$D/verif/work/target\"#" "$D/verif/harness/.cargo/config.toml"
-sed -i "s#--target-dir /verif/work/target-asan#--target-dir $D/verif/work/target-asan#" "$D/verif/check" "$D/verif/setup.sh"
+
+
 ( cd "$D/repo" && git init -q && git add -A && git -c user.email=x@x -c user.name=x commit -qm base )
 echo "$D ready: GV_ROOT=$D/verif $D/verif/check <ID> quick ; repo copy at $D/repo"
